@@ -56,7 +56,7 @@ def run_case(desc):
 
 class Cohorts(Facet):
     name = "cohorts"
-    examples = {"quick": 8000, "thorough": 150000}
+    examples = {"quick": 8000, "thorough": 450000}
     shards = {"quick": 16, "thorough": 16}
 
     def strategy(self, tier):
